@@ -46,11 +46,14 @@ package core
 // A message is an immutable record: its getters are functions of the message value.
 //@ spec func c07Price(m: Message) *big.Int
 //@ spec func c07Gas(m: Message) int
+// The price is a fixed NUMBER per message (ASSUMED: nobody mutates the big.Int a message hands out — types.Message shares it with the transaction):
+// the price refundGas pays back at is the price buyGas charged at, whatever ran in between.
+//@ spec func c07PriceVal(m: Message) int
 //@ func (Message).GasPrice props C07
 //@ trusted
 //@ pure
 //@ opt noalloc
-//@ ensures result == c07Price(recv)
+//@ ensures result == c07Price(recv) && big(result) == c07PriceVal(recv)
 //@ func (Message).Gas props C07
 //@ trusted
 //@ pure
@@ -78,6 +81,7 @@ package core
 //@ modifies mc.AvailableGas, mc.InitialGas, *mc.GP, all(state.stateObject.data), c07Ledger
 //@ ensures [gas-bought] result == nil ==> c07Ledger == old(c07Ledger) - c07Gas(mc.Msg) * big(c07Price(mc.Msg)) &&
 //@     mc.InitialGas == c07Gas(mc.Msg) && mc.AvailableGas == c07Gas(mc.Msg)
+//@ ensures [gas-bought-at-message-price] result == nil ==> c07Ledger == old(c07Ledger) - c07Gas(mc.Msg) * c07PriceVal(mc.Msg)
 //@ ensures [refused-unchanged] result != nil ==> c07Ledger == old(c07Ledger)
 
 // Refund: the gas left (including the capped refund counter) x price goes back to the sender.
@@ -85,6 +89,8 @@ package core
 //@ requires allocated(c07Price(mc.Msg))
 //@ modifies mc.AvailableGas, *mc.GP, all(state.stateObject.data), c07Ledger
 //@ ensures [unused-gas-returned] c07Ledger == old(c07Ledger) + mc.AvailableGas * big(c07Price(mc.Msg))
+//@ ensures [unused-gas-returned-at-message-price] c07Ledger == old(c07Ledger) + mc.AvailableGas * c07PriceVal(mc.Msg)
+//@ ensures [limit-and-message-fixed] mc.InitialGas == old(mc.InitialGas) && mc.Msg == old(mc.Msg)
 
 // ApplyMessageEntry / ApplyTransaction — "fees paid equal rewards credited": what finally left the sender for gas must be what
 // ApplyTransaction adds to the block's GasRewards (price x the gas figure ApplyMessageEntry returns).
@@ -98,3 +104,66 @@ package core
 //@ // func (*StateProcessor).ApplyTransaction props C07
 //@ // ghost after call (*math/big.Int).Add#1: c07Ledger := c07Ledger + big(a2)          // price x gas enters "GasRewards in transit"
 //@ // ensures [fees-paid-equal-rewards-credited] result2 == nil ==> c07Ledger == old(c07Ledger)
+
+// ---------------------------------------------------------------------------------------------------------------
+// The common entry. What it relies on from ANY converter (interface level, TRUSTED): staking.TxConverter is VERIFIED against these same clauses
+// in /repo/staking/verif_contracts_c07.go; for the EVM converter, [value-only-moves] is the assumption "EVM execution conserves value"
+// (C16's subject) and [reported-gas-is-consumed-gas] is C17's verified [used-gas] of (*DefaultConverter).ApplyMessage.
+// ---------------------------------------------------------------------------------------------------------------
+//@ func (Message).To props C07
+//@ trusted
+//@ pure
+//@ func (Message).Data props C07
+//@ trusted
+//@ pure
+//@ func (Message).Nonce props C07
+//@ trusted
+//@ pure
+//@ func (Message).CheckNonce props C07
+//@ trusted
+//@ pure
+
+//@ func (TxConverter).IntrinsicGas props C07
+//@ trusted
+//@ modifies nothing
+
+//@ func (TxConverter).ApplyMessage props C07
+//@ trusted
+//@ requires [gas-accounting] msgCtx.AvailableGas <= msgCtx.InitialGas
+//@ modifies all, c07Ledger
+//@ ensures [value-only-moves] c07Ledger == old(c07Ledger)
+//@ ensures [reported-gas-is-consumed-gas] result3 == nil && old(msgCtx.Cfg.CurrYouParams.Version) >= params.YouV4 ==> result1 == msgCtx.InitialGas - msgCtx.AvailableGas
+//@ ensures [context-untouched] c07CtxIs(msgCtx, old(msgCtx.Msg), old(msgCtx.State), old(msgCtx.GP), old(*msgCtx.GP), old(msgCtx.InitialGas), old(msgCtx.Cfg))
+//@ ensures [gas-only-consumed] msgCtx.AvailableGas <= old(msgCtx.AvailableGas)
+
+// ApplyMessageEntry: what finally left the sender for gas is price x the gas figure returned (which ApplyTransaction turns into GasRewards) —
+// OUTSIDE the region of the recorded known finding (EVM refund counter applied, or before YouV4: see the PENDING-FINDING text below). The ghost
+// c07Refunded observes the refund-counter gas refundGas handed back (0 for every staking transaction and every EVM transaction that clears no storage).
+// On an error return the transaction is not applied at all (ApplyTransaction fails, the caller discards the state): nothing is claimed.
+//@ ghost var c07AvailPre: int
+//@ ghost var c07Refunded: int
+//@ func (*StateProcessor).ApplyMessageEntry props C07
+//@ requires allocated(c07Price(msg))
+//@ ghost before call (*MessageContext).refundGas: c07AvailPre := msgCtx.AvailableGas
+//@ ghost after call (*MessageContext).refundGas: c07Refunded := msgCtx.AvailableGas - c07AvailPre
+//@ modifies all, c07Ledger, c07AvailPre, c07Refunded
+//@ ensures [fees-paid-equal-gas-reported-without-refund] result3 == nil && c07Refunded == 0 &&
+//@     cfg != nil && old(cfg.CurrYouParams) != nil && old(cfg.CurrYouParams.Version) >= params.YouV4 ==>
+//@     c07Ledger == old(c07Ledger) - result1 * c07PriceVal(msg)
+
+// The parts of a message context that stay fixed while a converter runs: the message, the state handle, the block gas pool (object and
+// level), the gas limit bought and the VM configuration. Only AvailableGas moves (downwards) between buyGas and refundGas.
+//@ spec func c07CtxIs(mc: *MessageContext, msg: Message, st: *state.StateDB, gp: *GasPool, pool: int, limit: int, cfg: *vm.Config) bool =
+//@     mc.Msg == msg && mc.State == st && mc.GP == gp && *mc.GP == pool && mc.InitialGas == limit && mc.Cfg == cfg
+
+// Using gas: exact, and the only writer of AvailableGas between buyGas and refundGas. GasUsed is the Go (wrapping) difference; it is the
+// mathematical one under the accounting invariant AvailableGas <= InitialGas, which the converters require.
+//@ func (*MessageContext).UseGas props C07
+//@ modifies mc.AvailableGas
+//@ ensures [used] old(mc.AvailableGas) >= amount ==> result == nil && mc.AvailableGas == old(mc.AvailableGas) - amount
+//@ ensures [out-of-gas] old(mc.AvailableGas) < amount ==> result != nil && mc.AvailableGas == old(mc.AvailableGas)
+
+//@ func (*MessageContext).GasUsed props C07
+//@ pure
+//@ opt noalloc
+//@ ensures [exact] result == wrap64(mc.InitialGas - mc.AvailableGas)
